@@ -163,6 +163,11 @@ def histories(draw, tier):
         st.tuples(st.just("close-during-fetch"), st.integers(0, 5)),
     )
     ops = [list(o) for o in draw(st.lists(op, max_size=nops))]
+    if draw(st.integers(0, 4)) == 0:
+        # a child borrowed from a handle, the parent handle is closed, the child is then tried by every method
+        pre = [["borrow", 0]] + [["next", 1]] * draw(st.integers(0, 2)) + [["close", 0], ["asend", 1], ["next", 1],
+                                                                           ["next-captured", 1], ["next-u"]]
+        ops = pre + ops
     fault_at = draw(st.one_of(st.none(), st.none(), st.integers(1, 6)))
     if fault_at and draw(st.booleans()):
         # make sure the failure is met through a handle, which is then closed and tried again by every method
